@@ -442,7 +442,7 @@ class Bin(Factory, Container):
         self.overflow._numpy(data, subweights, shape)
 
         if (
-            all(isinstance(value, Count) and value.transform is identity for value in self.values)
+            all(isinstance(value, Count) and value.transform == identity for value in self.values)
             and np.all(np.isfinite(q))
             and np.all(np.isfinite(weights))
         ):
